@@ -52,6 +52,20 @@ def _install_randn():
     onp.random.randn = sym_randn
 
 
+def _concrete_runs(check_grads, fun, modes, order, npr):
+    acc = 0
+    for trial in range(40):
+        npr.seed(1000 + trial)
+        try:
+            with warnings.catch_warnings():
+                warnings.simplefilter("ignore")
+                check_grads(fun, modes=list(modes), order=order)(float(npr.uniform(0.3, 2.0)) * (1 if trial % 2 else -1))
+            acc += 1
+        except AssertionError:
+            pass
+    return acc
+
+
 def prims():
     """(label, make(defect) -> (function of x built on a user primitive), argument spec, list of defects)"""
     from autograd.extend import defjvp, defvjp, primitive
@@ -156,7 +170,29 @@ def prims():
             defjvp(foo, lambda g, ans, x: {"v": g * 3.0, "u": g * 2.0 * x})
         return foo
 
+    def helper_split(defect):
+        # the reverse rule goes through a helper primitive that the forward rule does not use; the helper's value and
+        # reverse rules are right, its FORWARD rule is wrong: only the forward-over-reverse sweep of an order-2 check
+        # with both modes can see it
+        k = 1.0 + 1e-3 if defect == "fwdhelper" else 1.0
+
+        @primitive
+        def hlp(x, g):
+            return g * (6.0 * x + 2.0)
+
+        defvjp(hlp, lambda ans, x, g: lambda h: h * 6.0 * g, lambda ans, x, g: lambda h: h * (6.0 * x + 2.0))
+        defjvp(hlp, lambda t, ans, x, g: t * 6.0 * g * k, lambda t, ans, x, g: t * (6.0 * x + 2.0))
+
+        @primitive
+        def foo(x):
+            return x * x * 3.0 + 2.0 * x
+
+        defvjp(foo, lambda ans, x: lambda g: hlp(x, g))
+        defjvp(foo, lambda t, ans, x: t * (6.0 * x + 2.0))
+        return foo
+
     return [
+        ("reverse rule through a helper primitive", helper_split, SC, [], False),
         ("dict-valued output, tangent keys in another order", dict_out, R(2), ["swapped"], False),
         ("scalar quadratic", scalar_quad, SC, ["factor", "sign"], True),
         ("array quadratic (2,)", array_quad, R(2), ["factor", "sign", "entry"], False),
@@ -187,6 +223,8 @@ def items(tier):
                 out.append((lab, "order2-only", ("rev",), 2))
                 out.append((lab, "order2-only", ("fwd",), 2))
                 out.append((lab, "none", ("fwd",), 2))
+    out.append(("reverse rule through a helper primitive", "none", ("fwd", "rev"), 2))
+    out.append(("reverse rule through a helper primitive", "fwdhelper", ("fwd", "rev"), 2))
     # the checked argument selected through check_grads' argnum (it is a unary_to_nary operator): positive, negative, tuples
     for form in (1, -1, (1,), (-1,)):
         for modes in (("rev",), ("fwd",)):
@@ -234,6 +272,42 @@ def check(it, tier):
         fun = foo2
     else:
         fun = mk(defect)
+
+    if lab.startswith("reverse rule through a helper") and order == 2 and len(modes) == 2:
+        # order 2 with both modes forks into too many comparison paths for the symbolic executor (time limit): this one
+        # configuration is decided on 40 concrete float64 draws of the real check_grads instead (labelled as such)
+        import numpy.random as npr
+
+        patched = npr.randn
+        if getattr(patched, "_vf", False):
+            npr.randn = onp.random.randn = patched._real  # real draws for this item
+        try:
+            acc = _concrete_runs(check_grads, fun, modes, order, npr)
+        finally:
+            npr.randn = onp.random.randn = patched
+        for trial in range(0):
+            npr.seed(1000 + trial)
+            try:
+                with warnings.catch_warnings():
+                    warnings.simplefilter("ignore")
+                    check_grads(fun, modes=list(modes), order=order)(float(npr.uniform(0.3, 2.0)) * (1 if trial % 2 else -1))
+                acc += 1
+            except AssertionError:
+                pass
+        out.extra.update(decided_by="40 concrete float64 runs of check_grads", accepted=acc)
+        out.paths = 40
+        if defect == "none":
+            out.status = "holds" if acc == 40 else "violation"
+            out.detail = "" if acc == 40 else "check_grads rejected a CORRECT rule in %d of 40 concrete runs" % (40 - acc)
+        else:
+            out.status = "holds" if acc == 0 else "violation"
+            out.detail = "" if acc == 0 else "check_grads(modes=['fwd','rev'], order=2) accepted a rule whose forward-over-reverse derivative is wrong in %d of 40 concrete runs" % acc
+        if out.status == "violation":
+            out.cex = {"env": {}, "mode": "check_grads"}
+        else:
+            out.validated = 1
+        out.time = time.time() - t0
+        return out
 
     import autograd.test_util as tu
 
